@@ -14,8 +14,8 @@ RULE = (
     "pair contains 0 and is finite, first metabolite in compartment 'e', 0-3 objective coefficients incl. negative "
     "weights and reversible objective reactions, max/min, glpk and glpk_exact) extended by 0-2 motifs (dead-end branch "
     "of length 1-2, detour through a new metabolite, isolated two-reaction cycle with compatible or incompatible "
-    "directions, parallel copy of a reaction) and with exchange reactions closed on the uptake side or completely at "
-    "random. find_blocked_reactions: reaction_list None / objects / ids / mixed (subset, permuted) x open_exchanges x "
+    "directions, parallel copy of a reaction) and with boundary reactions (exchanges of 'e' metabolites as well as "
+    "sinks/demands of internal ones) closed on the uptake side or completely at random. find_blocked_reactions: reaction_list None / objects / ids / mixed (subset, permuted) x open_exchanges x "
     "processes 1/2, default zero_cutoff. fastcc: default flux_threshold / zero_cutoff, reactions with gene rules over "
     "<=3 genes. Oracle: exact rational FVA without any objective row (2 exact LPs per reaction; exchanges = boundary "
     "reactions of an 'e' metabolite widened to [min(lb,-1000), max(ub,1000)] when open_exchanges); blocked = exact "
@@ -116,11 +116,13 @@ def network(draw, gprs: bool):
         else:
             continue
         labels.append(f"motif-{motif}")
-    # close some exchanges (the medium), so that open_exchanges matters
+    # close some boundary reactions (exchanges = the medium, and sinks/demands of internal metabolites, which
+    # open_exchanges must leave alone), so that open_exchanges matters
     comp = {m["id"]: m["compartment"] for m in mets}
     for r in rxns:
         nz = [(m, c) for m, c in r["mets"].items() if c != 0]
-        if len(nz) == 1 and comp[nz[0][0]] == "e":
+        if len(nz) == 1:
+            kind = "exchange" if comp[nz[0][0]] == "e" else "sink"
             how = draw(st.sampled_from(["keep", "keep", "keep", "no-uptake", "closed"]))
             if how == "closed":
                 r["lb"], r["ub"] = 0, 0
@@ -130,7 +132,7 @@ def network(draw, gprs: bool):
                 else:
                     r["ub"] = 0
             if how != "keep":
-                labels.append(f"exchange-{how}")
+                labels.append(f"{kind}-{how}")
     used = sorted(set().union(*[gprtree.leaves(r["gpr"]) for r in rxns]) if rxns else set())
     spec["genes"] = [{"id": g, "name": "", "notes": {}, "annotation": {}} for g in used]
     return spec, sorted(set(labels))
